@@ -1,6 +1,7 @@
 package sim
 
 import (
+	"time"
 	"bytes"
 	"errors"
 	"fmt"
@@ -137,6 +138,7 @@ type Fault struct {
 
 // Disk is the durable state of one server across all its incarnations.
 type Disk struct {
+	StoreDelay time.Duration // set once before the first incarnation starts
 	w      *World
 	name   string
 	flavor Flavor
@@ -156,6 +158,7 @@ type Disk struct {
 	Taken       []string            // crash/error points actually taken: "kind/when"
 }
 
+// StoreDelay (field of Disk) makes every StoreLogs take that long in virtual time.
 func NewDisk(w *World, name string, fl Flavor) *Disk {
 	return &Disk{w: w, name: name, flavor: fl, im: newImage()}
 }
@@ -340,6 +343,9 @@ func (h *Handle) StoreLogs(ls []*raft.Log) error {
 			h.d.LogIfLive(h.ep, Ev{K: "d.refuse", A: ls[0].Index, B: hi})
 			return errNonContiguous
 		}
+	}
+	if d := h.d.StoreDelay; d > 0 {
+		time.Sleep(d) // a slow disk: the caller (raft's main loop) sits in StoreLogs for a while
 	}
 	ev := Ev{A: ls[0].Index, B: ls[len(ls)-1].Index}
 	for _, l := range ls {
